@@ -229,6 +229,9 @@ inductive Ret | ok | fail | eof | readErr
   | stanzaErr
   /-- the handler returns the stream error `stream.PolicyViolation` -/
   | streamErr
+  /-- errors that *wrap* a sentinel (`fmt.Errorf("…: %w", x)`) or join it with another error:
+  they are not identical to the sentinel, `errors.Is` / `errors.As` still find it -/
+  | wrapEof | wrapUeof | wrapStanza | wrapStream | joinEof
   deriving DecidableEq, Repr, Inhabited
 
 structure Prog where
@@ -362,6 +365,14 @@ def handleElem (cfg : Cfg) (n : Name) (as : List Attr) (rs1 : RS) (prog : Prog) 
   | .eof => .stop (some inv) ws1.out (.error .handler)
   | .stanzaErr => .stop (some inv) ws1.out (.error .handler)
   | .streamErr => .stop (some inv) ws1.out (.error (.streamError "policy-violation"))
+  -- only an error IDENTICAL to io.EOF is special (and is turned into an error); anything that
+  -- merely wraps io.EOF is an ordinary handler error; `sendError` finds a wrapped stream error
+  -- with errors.As and returns the handler's value
+  | .wrapEof => .stop (some inv) ws1.out (.error .handler)
+  | .wrapUeof => .stop (some inv) ws1.out (.error .handler)
+  | .wrapStanza => .stop (some inv) ws1.out (.error .handler)
+  | .joinEof => .stop (some inv) ws1.out (.error .handler)
+  | .wrapStream => .stop (some inv) ws1.out (.error (.streamError "policy-violation"))
   | .readErr =>
     (match es1.rs.sticky with
      | some (.err e) => .stop (some inv) ws1.out (.error e)
